@@ -95,6 +95,10 @@ def run(ctx: Context) -> None:
     _infra.move_dimensions_exits(ctx, 'R03.9')
     from .common import adopt_foundations as _adopt
     _adopt(ctx, 'R03.8', ['topology'], floor=30)
+    ctx.rule('R03.10', "the sizes that wind takes from the convention's grid_shape are, kind by kind and under the same conditions, the sizes of the dimensions grid_dimensions binds to that kind (facts shared with C01 R01.2)", floor=4)
+    from . import c01 as _c01
+    from .common import share_obligations as _share01
+    _share01(ctx, _c01, {'R01.2'}, 'R03.10')
     ctx.assume("numpy reshape in C order merges/splits trailing axes row-major; xarray transpose only permutes axes")
 
     for q, allowed in ((f"{UTILS}.wind_dimension", 0), (f"{UTILS}.ravel_dimensions", 1), (f"{UTILS}.splice_tuple", 0),
